@@ -1,6 +1,8 @@
 """C23 The buffer pool hands out each buffer once with adequate capacity (DESIGN §5 C23)."""
 from rulelib import *
 
+THOROUGH_CFGS = ('min_none', 'min_rten', 'min_onnx')   # reduced-feature builds of the rten crate (thorough tier)
+
 EXPLANATION = (
     "Static ownership / guard rules over rten::buffer_pool (MIR of the type-checked crate): Buffer is not "
     "Clone/Copy and is built in exactly one place; Vec::from_raw_parts in into_vec is dominated by a positive "
